@@ -30,6 +30,10 @@ var vC06Docs = []vDoc{
 	{Vec: []float32{3, 4}, Text: "gamma", Meta: map[string]interface{}{"s": "x", "bad": []int{1}}, Fail: "badmeta"},
 	{Vec: []float32{3, 4}, Text: "gamma", Meta: map[string]interface{}{"bad": []int{1}}, Fail: "badmeta"},
 	{Vec: []float32{0, 0}, Text: "alpha", Meta: map[string]interface{}{"s": "x"}, Fail: "zero"},
+	// values whose acceptance is the implementation's choice (non-finite / out-of-range
+	// floats): whichever way the call goes, it must go that way as a whole
+	{Vec: []float32{3, 4}, Text: "gamma", Meta: map[string]interface{}{"s": "x", "f": math.NaN()}, Fail: "either:nan"},
+	{Vec: []float32{3, 4}, Text: "gamma", Meta: map[string]interface{}{"s": "y", "f": 1e300}, Fail: "either:huge"},
 }
 
 type vHybCfg struct {
@@ -152,6 +156,9 @@ func (s *vHybSys) Apply(op vOp, hist []vOp, check bool) {
 			err = s.idx.AddWithID(id, vCopyVec(d.Vec), d.Text, vCloneMeta(d.Meta))
 		}
 		wantFail := s.willFail(d)
+		if strings.HasPrefix(d.Fail, "either:") {
+			wantFail = err != nil // not judged: the model follows the acknowledged outcome
+		}
 		if check && wantFail != (err != nil) {
 			s.c.Violation("add-result", fmt.Sprintf("fail=%s", d.Fail), s.cfgS, h(), fmt.Sprintf("%s doc %d returned %v, expected failure=%v", op.K, op.B, err, wantFail))
 		}
